@@ -1,0 +1,125 @@
+//go:build verif
+
+// Contracts of the Store interface, checked by /verif (govc). Comment-only: this file adds no code.
+// Every implementation is checked to refine these contracts (obligations `refines(...)`).
+
+package store
+
+// Abstract content, invariant and total weight of any store, by dynamic type. Stores of other dynamic
+// types do not satisfy SInv (user-defined stores are outside the verified closure, assumption A-ENC).
+//@ vfun SView(x Store, k int) real := is(x, *SparseStore) ? MView(as(x, *SparseStore), k) : DView(as(x, *DenseStore), k)
+//@ fun STot(x Store) real := is(x, *SparseStore) ? MTot(as(x, *SparseStore)) : as(x, *DenseStore).count
+//@ pred SInv(x Store) := x != nil && (is(x, *SparseStore) ? MInv(as(x, *SparseStore)) : (is(x, *DenseStore) && DInv(as(x, *DenseStore))))
+// Exact stores keep every index apart (the collapsing stores do not).
+//@ pred SExact(x Store) := is(x, *SparseStore) || is(x, *DenseStore)
+
+//@ func Store.Add
+//@   serves C04 C01
+//@   requires SInv(this) && in32(index)
+//@   ensures SInv(this) && dyntype(this) == old(dyntype(this)) && STot(this) == old(STot(this)) + 1.0
+//@   ensures view: SExact(this) ==> (forall k int :: SView(this, k) == old(SView(this, k)) + (k == index ? 1.0 : 0.0))
+//@   ensures stable: footprintStable(this)
+//@   modifies footprint(this)
+
+//@ func Store.AddWithCount
+//@   serves C04 C01 C02
+//@   requires SInv(this) && in32(index) && count >= 0.0
+//@   ensures SInv(this) && STot(this) == old(STot(this)) + count
+//@   ensures view: SExact(this) ==> (forall k int :: SView(this, k) == old(SView(this, k)) + (k == index ? count : 0.0))
+//@   ensures stable: footprintStable(this)
+//@   modifies footprint(this)
+
+//@ func Store.AddBin
+//@   serves C04
+//@   requires SInv(this) && in32(bin.index) && bin.count >= 0.0
+//@   ensures SInv(this) && STot(this) == old(STot(this)) + bin.count
+//@   ensures view: SExact(this) ==> (forall k int :: SView(this, k) == old(SView(this, k)) + (k == bin.index ? bin.count : 0.0))
+//@   ensures stable: footprintStable(this)
+//@   modifies footprint(this)
+
+//@ func Store.IsEmpty
+//@   serves C04 C12
+//@   requires SInv(this)
+//@   ensures result == (STot(this) == 0.0)
+
+//@ func Store.TotalCount
+//@   serves C04 C12 C01
+//@   requires SInv(this)
+//@   ensures result == STot(this)
+
+//@ func Store.MinIndex
+//@   serves C04 C12
+//@   requires SInv(this)
+//@   ensures empty: STot(this) == 0.0 ==> result1 != nil
+//@   ensures min: STot(this) > 0.0 ==> result1 == nil && in32(result) && (SExact(this) ==> SView(this, result) > 0.0 && (forall k int :: k < result ==> SView(this, k) == 0.0))
+
+//@ func Store.MaxIndex
+//@   serves C04 C12
+//@   requires SInv(this)
+//@   ensures empty: STot(this) == 0.0 ==> result1 != nil
+//@   ensures max: STot(this) > 0.0 ==> result1 == nil && in32(result) && (SExact(this) ==> SView(this, result) > 0.0 && (forall k int :: k > result ==> SView(this, k) == 0.0))
+
+//@ func Store.Clear
+//@   serves C04 C15
+//@   requires SInv(this)
+//@   ensures SInv(this) && STot(this) == 0.0 && (forall k int :: SView(this, k) == 0.0)
+//@   ensures stable: footprintStable(this)
+//@   modifies footprint(this)
+
+//@ func Store.Copy
+//@   serves C04 C14
+//@   requires SInv(this)
+//@   ensures result != nil && dyntype(result) == dyntype(this) && SInv(result) && STot(result) == STot(this)
+//@   ensures view: forall k int :: SView(result, k) == SView(this, k)
+//@   ensures independent: footprintFresh(result)
+
+//@ func Store.Reweight
+//@   serves C04 C16 C13
+//@   requires SInv(this)
+//@   ensures refuse: w <= 0.0 ==> result != nil && STot(this) == old(STot(this)) && (forall k int :: SView(this, k) == old(SView(this, k)))
+//@   ensures ok: w > 0.0 ==> result == nil && STot(this) == w * old(STot(this)) && (forall k int :: SView(this, k) == w * old(SView(this, k)))
+//@   ensures SInv(this)
+//@   ensures stable: footprintStable(this)
+//@   modifies footprint(this)
+
+// ForEach calls f exactly once for every index of positive weight, with that weight, until f asks to stop.
+// f must not modify the store it iterates over.
+//@ func Store.ForEach
+//@   serves C04 C12 C14
+//@   requires SInv(this)
+//@   ghost visited set := emptyset()
+//@   ghost stopped bool := false
+//@   callback f params index, count
+//@   callback f results stop
+//@   callback f requires !stopped && !visited[index] && count == SView(this, index) && count > 0.0 && in32(index)
+//@   callback f preserves footprint(this)
+//@   callback f ghost visited := update(visited, index, true)
+//@   callback f ghost stopped := stop
+//@   ensures complete: stopped || (forall k int :: SView(this, k) > 0.0 ==> visited[k])
+//@   ensures sound: forall k int :: visited[k] ==> SView(this, k) > 0.0
+//@   ensures SInv(this) && STot(this) == old(STot(this)) && (forall k int :: SView(this, k) == old(SView(this, k)))
+//@   modifies everything()
+
+// dynamic types admitted by SInv (refinement of the interface contracts is checked for these)
+//@ covers DenseStore SparseStore
+
+// The view of a store as a logical array, and the bridge between the stored total and the sum of the view.
+//@ fun SViewArr(x Store) array_real := lambda k int :: SView(x, k)
+//@ fun DViewArr(s *DenseStore) array_real := lambda k int :: DView(s, k)
+//@ lemma DTotIsTot(s *DenseStore)
+//@   serves C04 C02
+//@   requires DCore(s)
+//@   ensures s.count == Tot(DViewArr(s)) using SegmentTot(contents(s.bins), 0, len(s.bins), DViewArr(s), s.offset)
+//@ lemma STotIsTot(x Store)
+//@   serves C04 C02
+//@   requires SInv(x)
+//@   ensures STot(x) == Tot(SViewArr(x)) using SegmentTot(contents(as(x, *DenseStore).bins), 0, len(as(x, *DenseStore).bins), SViewArr(x), as(x, *DenseStore).offset), SetTot(vals(as(x, *SparseStore).counts), dom(as(x, *SparseStore).counts), SViewArr(x))
+
+//@ func Store.MergeWith
+//@   serves C04 C02
+//@   requires SInv(this) && SInv(store) && disjoint(this, store)
+//@   ensures SInv(this) && SInv(store) && STot(this) == old(STot(this)) + old(STot(store))
+//@   ensures view: SExact(this) ==> (forall k int :: SView(this, k) == old(SView(this, k)) + old(SView(store, k)))
+//@   ensures arg: STot(store) == old(STot(store)) && (forall k int :: SView(store, k) == old(SView(store, k)))
+//@   ensures stable: footprintStable(this) && footprintStable(store)
+//@   modifies footprint(this), footprint(store)
